@@ -368,6 +368,9 @@ def rule_ctor_label(ctx, py, R="C05.CTOR"):
 
 
 def run(ctx):
+    # package-wide disciplines first: they need no anchor, and what they find stands whatever the rules below can analyse
+    from .. import lints
+    lints.run(ctx, "C05", ctx.py, ["units"], truth_floor=28)
     py = ctx.py
     rule_tag(ctx, py)
     rule_raise(ctx, py)
@@ -382,7 +385,5 @@ def run(ctx):
     borrow(ctx, "C05", c06.rule_dimguard, ctx.py)
     borrow(ctx, "C05", c06.rule_eq3, ctx.py)
     borrow(ctx, "C05", c06.rule_convert_args, ctx.py, "C05.ARGS-CONV")
-    from .. import lints
-    lints.run(ctx, "C05", ctx.py, ["units"], truth_floor=28)
     ctx.assume("value-level correctness of operand order and sign in reflected operators (v - self vs self - v) and "
                "floating-point exactness are not decided")
